@@ -21,7 +21,7 @@ Proof.
   intro H. destruct y as [|h x]; unfold bstep.
   - unfold refs_shared. simpl. apply Forall_app. split; [exact H|repeat constructor].
   - destruct (alookup h (b_refs b)) as [r|]; [|exact H].
-    destruct (step lower world (St (deref b r) (b_next b)) x) as [s' res].
+    destruct (step lower world (St (deref b r) (b_next b) (b_dead b)) x) as [s' res].
     rewrite callbacks_never_rebound. simpl. exact H.
 Qed.
 
@@ -54,8 +54,9 @@ Definition bop_guarded (y : bop) : Prop := match y with NewIrc => True | Via _ x
 Lemma bsteps_as_steps : forall l b,
   refs_shared b -> Forall bop_ok l -> Forall bop_guarded l ->
   exists ops, Forall op_ok ops /\ Forall (op_guarded lower) ops /\
-    let s := steps lower world (St (deref b 0) (b_next b)) ops in
-    deref (bsteps lower world b l) 0 = s_cbs s /\ b_next (bsteps lower world b l) = s_next s.
+    let s := steps lower world (St (deref b 0) (b_next b) (b_dead b)) ops in
+    deref (bsteps lower world b l) 0 = s_cbs s /\ b_next (bsteps lower world b l) = s_next s /\
+    b_dead (bsteps lower world b l) = s_dead s.
 Proof.
   induction l as [|y t IH]; intros b Hs Hok Hg.
   - exists []. simpl. auto.
@@ -69,13 +70,14 @@ Proof.
         { clear - Hs Er. unfold refs_shared in Hs. induction (b_refs b) as [|[k v] t' IH']; simpl in *; [discriminate|].
           inversion Hs; subst. destruct (N.eqb h k); [simpl in *; congruence|auto]. }
         subst r. exists (x :: ops). split; [constructor; assumption|]. split; [constructor; assumption|].
-        simpl steps. destruct (step lower world (St (deref b 0) (b_next b)) x) as [s' res] eqn:Es.
-        rewrite callbacks_never_rebound in E |- *. destruct s' as [l' n']. cbn [s_cbs s_next fst] in E |- *.
-        set (B := {| b_heap := aset 0 l' (b_heap b); b_refs := b_refs b; b_next := n';
+        simpl steps. destruct (step lower world (St (deref b 0) (b_next b) (b_dead b)) x) as [s' res] eqn:Es.
+        rewrite callbacks_never_rebound in E |- *. destruct s' as [l' n' d']. cbn [s_cbs s_next s_dead fst] in E |- *.
+        set (B := {| b_heap := aset 0 l' (b_heap b); b_refs := b_refs b; b_next := n'; b_dead := d';
                      b_nref := b_nref b; b_nirc := b_nirc b |}) in *.
         assert (Hd : deref B 0 = l') by (unfold deref, B; simpl; rewrite alookup_aset; reflexivity).
         assert (Hn : b_next B = n') by reflexivity.
-        rewrite Hd, Hn in E. exact E.
+        assert (Hdd : b_dead B = d') by reflexivity.
+        rewrite Hd, Hn, Hdd in E. exact E.
       * exists ops. split; [exact Ho|]. split; [exact Hgo|]. exact E.
 Qed.
 
